@@ -44,3 +44,101 @@ PROPS["C06"] = dict(
                  "extendp = true: only the round trip inside the documented extended domain is claimed (DESIGN §5)",
                  "AngDiff/AngNormalize/LatFix models of C16"],
 )
+
+# ---- deepening round G06 ------------------------------------------------------------------------------------------------
+import hashlib as _hl06, os as _os06
+
+_verif06 = _os06.path.dirname(_os06.path.dirname(_os06.path.dirname(_os06.path.abspath(__file__))))
+_repo06 = _os06.environ.get("GV_REPO", "/repo")
+
+
+def _tmproj_digest():
+    # the harness compiles $GV_REPO/tools/TransverseMercatorProj.cpp into itself: make the harness cache key depend on its text
+    h = _hl06.sha256()
+    try:
+        h.update(open(_os06.path.join(_repo06, "tools", "TransverseMercatorProj.cpp"), "rb").read())
+    except OSError:
+        h.update(b"missing:TransverseMercatorProj.cpp")
+    return h.hexdigest()[:16]
+
+
+PROPS["C06"]["harnesses"] = [dict(name="C06", procs_quick=2, procs_thorough=16,
+                                  extra=["-I" + _os06.path.join(_verif06, "harness", "C06_tools"), "-DGV_TOOLS_DIGEST=0x" + _tmproj_digest()])]
+PROPS["C06"]["gens"] = ["gen_tmseries", "gen_tmexact", "gen_math", "gen_auxseries"]
+
+PROPS["C06"]["rule"] = (
+    "ellipsoids f ∈ {WGS84, 1/150, 0.01, −0.01 and −1/298.26 (series only), 0 (sphere, series only), 1e-6 (e → 0), 0.1 (exact only)}, k0 ∈ {1, 0.9996, 10}, "
+    "lon0 ∈ {0, 7, −123.5, 179, −180, 540, 360·k + …} and at/next to the date line {±180, ±179.9999999, 180 − ulp, 179.5} with the point on the other side; "
+    "|lon − lon0| ∈ {0, 1e-10, 3, 35, 60, 89, 90, 90 ± 1e-10, 179, 180} and uniform in [0,35], [35,90], [90,180]; lat ∈ {±0, ±1e-10, ±89.999999, "
+    "±89.9999999999, ±90, uniform}; the exact form's branch point (lat ±0, lon − lon0 = 90(1−e) ± 0..4 ulp), the equatorial segment beyond it up to "
+    "90(1+e), its neighbourhood (|lat| = 1e-12…0.1); central meridian; lon0 = 179 with lon = −179 − u; lon shifted by up to 4e7·360°; invalid "
+    "latitudes; plane points for Reverse (axes, near side, far side, up to 3a·k0 for the exact form, 1e-9·a); first-quadrant kernel points "
+    "for the series formula model; wrapper correspondence for series, exact and exact+extendp. Public surface: 5-argument overloads, inspectors, Exact(), "
+    "TransverseMercator(a, f, k0, exact, extendp) against TransverseMercatorExact(a, f, k0, extendp) for Forward and Reverse, constructor domain "
+    "(a, f, k0 ∈ {valid, 0, negative, ∞, NaN, f ≥ 1}), the static UTM() instances of both classes, tools/TransverseMercatorProj (default, -s, -t, -r, -w, -e, -k, -l, -p 9; "
+    "points that tell the three algorithms apart). Exact form against Model/TMExact.lean: constructor state; closed forms on the whole period rectangle "
+    "incl. its corners and edges; zetainv0/sigmainv0 in each of their three cases and on both sides of every threshold, around the branch point down to 1e-14; "
+    "zetainv/sigmainv on images of first-quadrant points and of the extended domain; Forward/Reverse between fold and unfold incl. pole, branch point ± 3 ulp, "
+    "extendp with southern latitudes. Math::taupf/tauf for es of either sign, |tau| from 1e-300 to 1e17. non-trivial = finite result; distinct = distinct (op, leading argument bits)")
+PROPS["C06"]["tolerances"].update({
+    "exact form vs Model/TMExact": "4 × the running-error bound of the model's own binary64 evaluation on these inputs (FP/RunErr.lean), elliptic-function values supplied by the "
+                                   "implementation (Lipschitz constant 1 in the argument); comparisons whose bound exceeds 1e-4 relative are skipped as ill-conditioned "
+                                   "(branch point, pole of sigma); iteration counts may differ by a marginal test (|delw2/threshold| within a factor 4) — skipped, otherwise an alarm",
+    "Newton inversions return a root": "Newton correction at the returned point ≤ 1e-9(1 + |u| + |v|), or residual of zeta/sigma itself ≤ 64 ε(1 + |target|) next to the branch point",
+    "tool vs API": "half a unit of the last printed digit (-p 9: 1e-9 m, 1e-14 deg, 1e-15) + 4 ulp",
+    "overloads, delegation, UTM() instances": "identical bits",
+    "taupf/tauf": "model: 4 × running-error bound; tauf(taupf(tau)) = tau to 8 ε relative",
+})
+PROPS["C06"]["level_text"] = (
+    "Theorems (44, Props/C06.lean). (1) Wrapper, for EVERY first-quadrant kernel, over the exact binary64 model the driver executes (both classes): lat ↦ −lat gives "
+    "(x, −y, −γ, k) (except on the far-side equator, where the code's documented rule latsign = −1 applies), lon − lon0 ↦ −(lon − lon0) gives (−x, y, −γ, k), far side "
+    "lon ↦ 180 − lon with ξ ↦ π − ξ resp. 2E − ξ and γ ↦ 180 − γ, Reverse mirrors these, the kernel is only called on the first quadrant, the wrapper is the identity up to "
+    "scaling on first-quadrant input; with extendp = true there is no folding at all in Forward and in Reverse (tm_extendp_forward/reverse). (2) Series kernel as coded "
+    "(TM.fwdKernel / TM.revKernel, the functions the driver runs in binary64, read at ℝ/ℂ): the complex Clenshaw pair returns F(ζ) = ζ + Σ c_j sin 2jζ and "
+    "F'(ζ) = 1 + Σ 2j c_j cos 2jζ, and F' is the complex derivative of F (HasDerivAt); the Gauss–Schreiber step satisfies the spherical transverse Mercator relations "
+    "(cos ξ' = cos λ/h, sin ξ' = τ'/h, sinh η' = sin λ/h, cosh η' = √(1+τ'²)/h, tan ξ' = τ'/cos λ, tanh η' = sin λ/√(1+τ'²)) and in closed form sin ζ' = tanh(ψ + iλ), "
+    "cos ζ'·cosh(ψ + iλ) = 1 (ζ' = gd(w), ψ = asinh τ'), the coded γ', hypot(τ', cos λ) are arg and |·| of cosh w, and every differentiable branch with these two identities has dζ'/dw = 1/cosh w (HasDerivAt); Forward returns ξ + iη = F(ζ'), "
+    "γ = γ' − arg F'(ζ'), k = k'·b1·|F'(ζ')|; Reverse returns ζ' = G(ζ), γ = arg G'(ζ) + γ', k = b1/|G'(ζ)|·k' (pole branch included); Reverse's series step applied to "
+    "Forward's is exactly G∘F; η = 0 ⇔ λ = 0 where Σ 2j|α_j| cosh 2jη' < 1; on the central meridian η = 0, ξ = χ + Σ α_j sin 2jχ (χ = atan τ'), γ = 0, k = k'·b1·dξ/dχ; "
+    "the coefficients _alp[l], _bet[l] the constructor computes are the values at n of the certified polynomials (tm_coeffs_eval, every table). (3) Table certificates, "
+    "re-checked against the source on every run (decide +kernel over exact rationals): b1 = (1 + n²/4 + n⁴/64 + n⁶/256)/(1 + n); G∘F = F∘G = id modulo n⁷ as trigonometric "
+    "series (all harmonics ≤ 6, Taylor substitution; harmonics above 6 are dropped under the certified shape 'harmonic j is O(n^j)'); alpcoeff and −betcoeff are the μ←χ "
+    "and χ←μ tables of AuxLatitude.cpp, also as equal coefficient lists (alp_is_aux_list), so the central-meridian northing is a·b1·k0·(the rectifying-latitude series "
+    "certified in C15) (tm_central_meridian_is_rectifying). (4) Exact form, for EVERY elliptic-function kernel (Model/TMExact.lean; EllipticFunction::am, E(sn,cn,dn), "
+    "K, E, KE are abstract): the Newton loop of zetainv/sigmainv returns the Newton iterate after `steps` steps, steps ≤ numit_ (read from the header on every run), an exit "
+    "through the convergence test means that some iterate w_m (m + 2 ≤ numit_) has |dw/dζ|²·((τ'(w_m) − τ')²/(1+τ'²) + (λ(w_m) − λ)²) < tol2_/max(ψ,1)² (resp. "
+    "|dw/dσ|²·|σ(w_m) − σ|² < tol2_), all earlier ones had not, and the result is the iterate two steps later; an exit at the cap is silent and means all corrections but "
+    "possibly the last were ≥ the tolerance; Forward takes the pole case exactly for lat = 90 and the branch-point case exactly at lat = 0 ∧ lon − lon0 = 90(1 − e), "
+    "Reverse the branch-point case exactly at ξ = 0 ∧ η = K' − E' and the pole output exactly for (u, v) = (K, 0) (tmx_forward_cases, tmx_reverse_cases). With the Jacobi functions abstract (only sn² + cn² = 1, dn² + k² sn² = 1 assumed; complex values defined by the addition "
+    "theorem, for which the same relations are proved to persist): zeta is Lee 54.17 (τ' = sinh(atanh(sn u dn v) − e atanh(e sn u/dn v)); λ = arg(cn u cn v + i dn u sn v) "
+    "− e arg(dn u cn v + i e cn u sn v), these being Re/Im of atanh(sn w) − e atanh(e sn w)), dwdzeta = cn w dn w/(1 − e²) (54.21), dwdsigma = dn² w/(1 − e²) (55.9), and "
+    "the rewritings used in sigma and Scale. Correspondence: the wrapper model predicts the implementation's answer on general inputs from its own first-quadrant kernel "
+    "values (series, exact, exact + extendp); the series kernel model with the extracted tables agrees with the implementation to rounding; the exact-form model, run in "
+    "running-error arithmetic on the elliptic-function values recorded from the implementation, reproduces the constructor state, the closed forms, the starting guesses "
+    "(same case, same flag), every recorded Newton step, the iteration count, the library's zetainv/sigmainv result and Forward/Reverse between fold and unfold. Oracles on "
+    "the implementation: an independent evaluation of the Gauss–Krüger mapping (quadrature of M'(w) along a path in the complex isometric plane, 80-bit) for x, y, γ, k; series "
+    "vs exact; Reverse∘Forward and Forward∘Reverse; central meridian; equator; poles; parities, periodicity, far-side reflection, lon0 shift; conformality by finite "
+    "differences; extendp round trip; Newton inversions return a root; Legendre's relation and the Jacobi relations on what EllipticFunction returns; overloads, "
+    "inspectors, delegation of TransverseMercator(exact = true) incl. extendp and Reverse, constructor domain, UTM() instances, the TransverseMercatorProj tool against the API. "
+    "Partial: the nanometre error bounds of the floating-point code and the size of the O(n⁷) remainder over ℝ are not theorems (covered by the oracle); that the Newton "
+    "loops do leave through their convergence test, and everything about the elliptic functions themselves, is not proved (kernels); derivative consistency of zeta/sigma "
+    "with their coded Jacobians is proved only algebraically (as the Lee formulas), not as derivatives. Finding F90 (exact form, e² ≤ 1e-4: k'² of the second EllipticFunction object recomputed with cancellation) is "
+    "repaired in /repo (5c8be26) and guarded by the oracle complementary-modulus of op tmxc; open finding F91 (exact Reverse, e² ≥ 0.15: sigmainv wanders / hits "
+    "the iteration cap) has a decidable class, a witness in the corpus and a mitigating candidate patch (design-probes/G06).")
+PROPS["C06"]["level_note"] = (
+    "b1coeff/alpcoeff/betcoeff, the series order and TransverseMercatorExact::numit_ regenerated from the sources each run; hand-written wrapper model over the exact F64 "
+    "softfloat; polymorphic (RealLike) models of the series kernel and of the whole exact form (zeta, dwdzeta, sigma, dwdsigma, zetainv0, sigmainv0, Newton loop, Scale, "
+    "Forward/Reverse kernels) — executed in binary64 / running-error arithmetic by the driver, read at ℝ by the theorems; kernel values come from the implementation "
+    "(unit-scale copy of the object; EllipticFunction calls recorded along a replica of the loop that calls the library's own private pieces); oracle in x87 long double; "
+    "tools/TransverseMercatorProj.cpp of the current tree compiled into the harness")
+PROPS["C06"]["technique"] = ("Lean 4 proofs (wrapper parities for an arbitrary kernel; series kernel over ℝ/ℂ incl. complex derivative; Newton-loop structure and Lee's closed forms "
+                             "for arbitrary elliptic kernels; table certificates by decide +kernel over a truncated trig-series CAS) + exact wrapper correspondence + running-error "
+                             "correspondence of the exact form + quadrature oracle")
+PROPS["C06"]["assumptions"] = [
+    "the Gauss–Krüger projection is the analytic continuation of the meridian distance in the isometric plane (Krüger 1912; Karney 2011 §2) — used as the specification, not derived",
+    "Jacobi elliptic functions are not in Mathlib: sn, cn, dn enter the exact-form theorems as arbitrary reals with sn² + cn² = 1, dn² + k² sn² = 1, complex arguments by the addition theorem (A+S 16.21); "
+    "the harness checks the two relations and Legendre's relation on what EllipticFunction returns",
+    "Math::taupf is the tangent of the conformal latitude (C15/C16); tm_central_meridian and the Gauss–Schreiber theorems are stated in terms of τ' = taupf(tan φ)",
+    "extendp = true: only the round trip inside the documented extended domain is claimed, not towards its south pole where the image leaves the range of binary64 (DESIGN §5, P16)",
+    "AngDiff/AngNormalize/LatFix models of C16",
+]
